@@ -108,8 +108,10 @@ static void judge(const Inst &I, const Outcome &o, const string &who, bool stati
 }
 
 // ---- part A: instances ------------------------------------------------------------
+static bool g_unitWeightsOnly = false;
+static vector<double> g_gaps = {-1, 0, 2};   // gap alphabet of the instance phases ({-3, 0, 2}: feasible cycles with real slack -- a lower and an upper bound on one difference that are 3 apart)
 static void instances(int n, int maxm, bool withEq, int scaleVariant, bool perms) {
-    vector<double> dvals = {0, 1, 3}, gaps = {-1, 0, 2};
+    vector<double> dvals = {0, 1, 3}, gaps = g_gaps;
     vector<SepC> alphabet;
     for (int l = 0; l < n; l++) for (int r = 0; r < n; r++) if (l != r) for (double g : gaps) {
         alphabet.push_back({l, r, g, false}); if (withEq) alphabet.push_back({l, r, g, true}); }
@@ -117,7 +119,7 @@ static void instances(int n, int maxm, bool withEq, int scaleVariant, bool perms
     vector<double> sc(n, 1.0);
     if (scaleVariant == 1) { sc[0] = 2; if (n > 2) sc[2] = 0.5; }
     if (scaleVariant == 2) { sc[n - 1] = 4; if (n > 1) sc[0] = 0.5; }
-    ctx.phase(mcx::fmt("instances n=%d m<=%d eq=%d scale=%d perms=%d", n, maxm, withEq, scaleVariant, perms));
+    ctx.phase(mcx::fmt("instances n=%d m<=%d eq=%d scale=%d perms=%d%s", n, maxm, withEq, scaleVariant, perms, gaps[0] == -1 ? "" : mcx::fmt(" gaps {%g,%g,%g}", gaps[0], gaps[1], gaps[2]).c_str()));
     for (int m = 0; m <= maxm && !ctx.stopped(); m++) {
         if (n == 1 && m > 0) break;
         vector<int> idx(m, 0);
@@ -130,6 +132,7 @@ static void instances(int n, int maxm, bool withEq, int scaleVariant, bool perms
             do {
                 for (unsigned wc = 0; wc < (1u << n); wc++) {
                     if (perms && wc != 0 && wc != 5u % (1u << n)) continue;
+                    if (g_unitWeightsOnly && wc != 0) continue;
                     if (!ctx.next()) continue;
                     I.d.assign(n, 0); I.w.assign(n, 1);
                     for (int i = 0; i < n; i++) { I.d[i] = dvals[dsel[i]]; I.w[i] = (wc >> i & 1) ? 4 : 1; }
@@ -494,6 +497,7 @@ int main(int argc, char **argv) {
     // iterated bounds: small first, so the first counterexample is the smallest
     for (int n = 1; n <= 3; n++) instances(n, 3, true, 0, false);
     instances(3, 3, true, 1, false);
+    g_gaps = {-3, 0, 2}; instances(2, 4, false, 0, false); instances(3, 3, false, 0, false); g_unitWeightsOnly = true; instances(3, 4, false, 0, false); g_unitWeightsOnly = false; g_gaps = {-1, 0, 2};   // (m = 4 over three variables: a chain, its shortcut and a slack upper bound on its span -- unit weights only)
     instances(2, 3, true, 2, false);
     if (!P1) { instances(2, 3, true, 0, true); instances(3, 2, true, 0, true); instances(3, 2, false, 1, true); }
     resolves<NSvpsc>(3, 3, {-1, 0, 2}, 1); resolves<NSvpsc>(4, 4, {1}, 2); resolves<NSavoid>(3, 3, {0, 2}, 2);
